@@ -565,6 +565,21 @@ func (g *generator) declareDisjunction(v cue.Value, hints ast.JenniesHints, defa
 		disjunctionBranches = append(disjunctionBranches, branch)
 	}
 
+	// every branch is equal to the default (`{k?: string} | *{}`: both
+	// branches are "equal" to `{}`): the type is the first branch that is not
+	// a concrete value, instead of a disjunction without any branch.
+	if len(disjunctionBranches) == 0 && len(disjunctionBranchesWithPossibleDefault) != 0 {
+		typeBranch := disjunctionBranchesWithPossibleDefault[0]
+		for _, branch := range disjunctionBranchesWithPossibleDefault {
+			if !branch.IsConcrete() {
+				typeBranch = branch
+				break
+			}
+		}
+
+		return g.declareNode(typeBranch)
+	}
+
 	// not a disjunction anymore
 	if len(disjunctionBranchesWithPossibleDefault) != len(disjunctionBranches) && len(disjunctionBranches) == 1 {
 		return g.declareNode(disjunctionBranches[0])
